@@ -289,7 +289,7 @@ def identify_mediators(
         return []
 
     # find the intersection of nodes in all causal paths (since mediators must block _all_ causal paths)
-    candidate_nodes = set.intersection(*[path.difference(source_id, destination_id) for path in causal_paths])
+    candidate_nodes = set.intersection(*[path.difference({source_id, destination_id}) for path in causal_paths])
 
     # create a copy of the provided graph and prune edges to the children of the source
     pruned_graph = graph.copy()
